@@ -61,3 +61,15 @@ func TestFinding39_MustacheOperatorsStayText(t *testing.T) {
 		t.Fatalf("readable operators: got %q then %q", o1, o2)
 	}
 }
+
+// rows 46 (formatter half) and 58 — C02.R9 / C19.R12
+func TestFinding46and58_NbspAndBlankAttribute(t *testing.T) {
+	o1, o2 := formatTwice(t, "<p>a&nbsp;b</p>")
+	if o1 != "<p>a b</p>\n" || o2 != o1 {
+		t.Fatalf("nbsp: got %q then %q", o1, o2)
+	}
+	o1, o2 = formatTwice(t, `<div class=" ">x</div>`)
+	if o2 != o1 {
+		t.Fatalf("blank attribute: got %q then %q", o1, o2)
+	}
+}
